@@ -307,6 +307,19 @@ def model_term(case, res, mpos=0):
             f"{cz(case['dim'])} {q} {k} {v} {m} {cimpl(res)} {cq(TOL)})")
 
 
+def range_term(case, res):
+    """Spec.range_okb on the implementation's output (single-head flavours): no model involved"""
+    v = cqt(case["v"], case["vshape"], VD)
+    if case.get("mshape") is None:
+        m = "None"
+    else:
+        m = co(f"(bt {crshape(case['mshape'])} {cl([cb(x) for x in case['mask']])})")
+    out = res["out"]
+    flat = [Fraction(x) if x == x and abs(x) != float("inf") else Fraction(10**30) for x in out.reshape(-1).tolist()]
+    p = len(case["kshape"]) - 1 - axis_of(case)
+    return f"(range_okb {cq(TOL)} {v} {m} {cn(p)} {crshape(out.shape)} {clq(flat)})"
+
+
 # ----------------------------------------------------------------------------------------
 # the property's relations, run on the implementation
 # ----------------------------------------------------------------------------------------
@@ -689,6 +702,11 @@ def report_case(chk, case, res, model_ok, rel, allow_nfi):
            "relations_failed": [list(x) for x in rel], "family": family(case),
            "correspondence": "corr:C20:*SoftAttention.__call__/MultiHeadedAttention.__call__",
            "theorems_at_stake": THEOREMS}
+    if case["flavour"] != "mha" and res["out"] is not None and not case.get("malformed"):
+        try:
+            rec["spec_range_okb"] = bool(coq_eval_bools(chk.workdir, IMPORTS, [range_term(case, res)], tag="spec")[0])
+        except Exception as e:  # pragma: no cover
+            rec["spec_range_okb"] = "error: " + str(e)[:200]
     if case["flavour"] == "mha" and not model_ok and res["out"] is not None:
         # does the implementation behave like the model with the mask unsqueezed at -2 (as found)?
         rec["agrees_with_mask_unsqueeze_minus2"] = bool(
@@ -732,7 +750,7 @@ def run(chk, cases=None):
             c = c.get("case", c)
             c["stream"] = "corpus"
             cases.append(c)
-        nrand = 2500 if chk.tier == "thorough" else 330
+        nrand = 3000 if chk.tier == "thorough" else 450
         for i in range(nrand):
             c = gen_case(chk.rng)
             c["stream"] = "random"
@@ -759,6 +777,9 @@ def run(chk, cases=None):
         chk.count("outcome=" + ("raise" if r["out"] is None else "ok"))
         if c["flavour"] == "mha":
             chk.count("mha_bias=" + "".join("1" if b else "0" for b in c["mha"]["bias"]))
+            chk.count("mha_heads=%d" % c["mha"]["H"])
+            if c.get("mshape") is not None and not c.get("malformed"):
+                chk.count("mha_mask_last_dim" + ("==H" if c["mshape"][-1] == c["mha"]["H"] else "!=H"))
         if c.get("malformed"):
             chk.count("malformed=" + c["malformed"])
             rel = []
